@@ -491,7 +491,7 @@ func (s *EtcdStore) DeleteTopic(ctx context.Context, name string) error {
 	if err := s.deleteConsumerOffsets(ctx, name); err != nil {
 		return err
 	}
-	return s.persistSnapshotLocked(ctx)
+	return s.persistSnapshotLocked(ctx, name)
 }
 
 func (s *EtcdStore) startWatchers() {
@@ -558,20 +558,95 @@ func (s *EtcdStore) persistSnapshot(ctx context.Context) error {
 	return s.persistSnapshotLocked(ctx)
 }
 
-func (s *EtcdStore) persistSnapshotLocked(ctx context.Context) error {
-	state, err := s.metadata.Metadata(context.Background(), nil)
-	if err != nil {
-		return err
+// persistSnapshotLocked writes the in-memory snapshot to etcd. Several brokers
+// persist the whole snapshot, so a plain put from a broker whose watcher has not
+// caught up yet would erase what another broker just acknowledged. The write is
+// therefore a compare-and-swap on the snapshot's revision, and topics (or
+// partition growth) found in etcd that this broker has not seen yet are kept.
+// deleted names the topics this call removes on purpose.
+func (s *EtcdStore) persistSnapshotLocked(ctx context.Context, deleted ...string) error {
+	const attempts = 5
+	var lastErr error
+	for attempt := 0; attempt < attempts; attempt++ {
+		getCtx, cancelGet := context.WithTimeout(ctx, 5*time.Second)
+		resp, err := s.client.Get(getCtx, snapshotKey())
+		cancelGet()
+		if err != nil {
+			s.recordEtcdResult(err)
+			return err
+		}
+		state, err := s.metadata.Metadata(context.Background(), nil)
+		if err != nil {
+			return err
+		}
+		cmp := clientv3.Compare(clientv3.Version(snapshotKey()), "=", 0)
+		adopted := false
+		if len(resp.Kvs) > 0 {
+			cmp = clientv3.Compare(clientv3.ModRevision(snapshotKey()), "=", resp.Kvs[0].ModRevision)
+			var remote ClusterMetadata
+			if err := json.Unmarshal(resp.Kvs[0].Value, &remote); err == nil {
+				adopted = adoptRemoteTopics(state, remote, deleted)
+			}
+		}
+		payload, err := json.Marshal(state)
+		if err != nil {
+			return err
+		}
+		putCtx, cancel := context.WithTimeout(ctx, 5*time.Second)
+		txnResp, err := s.client.Txn(putCtx).
+			If(cmp).
+			Then(clientv3.OpPut(snapshotKey(), string(payload))).
+			Commit()
+		cancel()
+		s.recordEtcdResult(err)
+		if err != nil {
+			return err
+		}
+		if txnResp.Succeeded {
+			if adopted {
+				s.metadata.Update(*state)
+			}
+			return nil
+		}
+		lastErr = errors.New("metadata snapshot changed concurrently")
 	}
-	payload, err := json.Marshal(state)
-	if err != nil {
-		return err
+	return lastErr
+}
+
+// adoptRemoteTopics adds to local the healthy topics of remote that local lacks
+// and takes over a larger partition set of a common topic. It reports whether
+// local changed.
+func adoptRemoteTopics(local *ClusterMetadata, remote ClusterMetadata, deleted []string) bool {
+	skip := make(map[string]struct{}, len(deleted))
+	for _, name := range deleted {
+		skip[name] = struct{}{}
 	}
-	putCtx, cancel := context.WithTimeout(ctx, 5*time.Second)
-	defer cancel()
-	_, err = s.client.Put(putCtx, snapshotKey(), string(payload))
-	s.recordEtcdResult(err)
-	return err
+	index := make(map[string]int, len(local.Topics))
+	for i, topic := range local.Topics {
+		if topic.Topic != nil {
+			index[*topic.Topic] = i
+		}
+	}
+	changed := false
+	for _, topic := range remote.Topics {
+		if topic.Topic == nil || *topic.Topic == "" || topic.ErrorCode != 0 {
+			continue
+		}
+		if _, gone := skip[*topic.Topic]; gone {
+			continue
+		}
+		i, known := index[*topic.Topic]
+		if !known {
+			local.Topics = append(local.Topics, topic)
+			changed = true
+			continue
+		}
+		if len(topic.Partitions) > len(local.Topics[i].Partitions) {
+			local.Topics[i] = topic
+			changed = true
+		}
+	}
+	return changed
 }
 
 func (s *EtcdStore) deleteTopicOffsets(ctx context.Context, topic string) error {
